@@ -34,6 +34,7 @@ struct uthr {
 	uint64_t ops[U_NR], ok[U_NR], addu_found, replace_enoent, del_enoent, lookup_null;
 	uint64_t walks, walks_nontrivial, dupwalks, travs, lookups, cont_checks, nodes_seen, during_grow, during_shrink, size_changed;
 	uint64_t ballast_ops, del_lost_owner;
+	int samples;
 	char pad[64];
 };
 
@@ -84,7 +85,7 @@ static int u_check_node(struct hnode *h, int k, uint64_t call, const char *what)
 	uint64_t rm = VP_LOAD(h->rm_ts);
 	if (rm && vp_eps && rm + vp_eps < call) {
 		viol("lfht:returned-node-removed-before-call",
-		     "phase %llu: %s (key k%d) returned node %p although the operation that removed it (del / replace / add_replace, owner T%u) had returned %llu cycles before this call began (eps %llu)",
+		     "phase %llu: %s (key k%d) returned node %p (inserted by T%u) although an operation that removed it (del 0 / replace 0 / add_replace result) or that found it already removed (del / replace -> -ENOENT) had returned %llu cycles before this call began (eps %llu)",
 		     (unsigned long long) u_phase, what, h->kidx, (void *) h, h->lid, (unsigned long long) (call - rm), (unsigned long long) vp_eps);
 		return -1;
 	}
@@ -229,6 +230,9 @@ static void updater_op(struct uthr *u)
 					viol("lfht:replace:wrong-return-code", "phase %llu: cds_lfht_replace (same key and hash) returned %d", (unsigned long long) u_phase, rc);
 				u->replace_enoent++;
 				unused = nn;
+				/* somebody else removed it (maybe still unlinking): no later-started read may return it */
+				if (rc == -ENOENT && !VP_LOAD(old->rm_ts))
+					VP_STORE(old->rm_ts, rts);
 			}
 		} else {
 			uint64_t flagged0 = vp_self()->hits[URCU_VP_HT_DEL_FLAGGED];
@@ -244,6 +248,8 @@ static void updater_op(struct uthr *u)
 				if (rc != -ENOENT)
 					viol("lfht:del:wrong-return-code", "phase %llu: cds_lfht_del returned %d", (unsigned long long) u_phase, rc);
 				u->del_enoent++;
+				if (rc == -ENOENT && !VP_LOAD(old->rm_ts))
+					VP_STORE(old->rm_ts, rts);
 			}
 		}
 		break;
@@ -286,9 +292,17 @@ static void walker_sig(struct uthr *u, const char *kind, int k, const uint64_t b
 	if (!total)
 		return;
 	u->walks_nontrivial++;
-	snprintf(sig, sizeof(sig), "walk:%s:%s:%s:upd=%s%s%s%s:n=%s:%s:found=%d", kind, k == 0 && opt_continuous ? "continuous-key" : "churn-key",
+	if (u->samples < 2 && total >= 2 && (u->walks_nontrivial & 1023) == 9) {
+		u->samples++;
+		vp_sample_add("phase %llu table={%s} walker T%d: %s for key k%d (hash 0x%lx, %s) found %d node(s); successful updates of that key that completed during the walk: add_unique %llu, add_replace %llu, replace %llu, del %llu; table size %lu -> %lu, explicit resize %s",
+			      (unsigned long long) u_phase, g_ctx, u->idx, kind, k, hot_keyhash[k], k == 0 && opt_continuous ? "continuous" : "churn", nnodes,
+			      (unsigned long long) (VP_LOAD(upd_cnt[k][0]) - before[0]), (unsigned long long) (VP_LOAD(upd_cnt[k][1]) - before[1]),
+			      (unsigned long long) (VP_LOAD(upd_cnt[k][2]) - before[2]), (unsigned long long) (VP_LOAD(upd_cnt[k][3]) - before[3]),
+			      s0, s1, (d0 | d1) == 0 ? "idle" : (d0 | d1) == 1 ? "growing" : "shrinking");
+	}
+	snprintf(sig, sizeof(sig), "walk:%s:%s:%s:upd=%s%s%s%s:%s", kind, k == 0 && opt_continuous ? "continuous-key" : "churn-key",
 		 rz_names[opt_resize], (mask & 1) ? "U" : "-", (mask & 2) ? "A" : "-", (mask & 4) ? "R" : "-", (mask & 8) ? "D" : "-",
-		 total == 1 ? "1" : total <= 3 ? "2-3" : "4+", s0 != s1 ? "size-changed" : (d0 | d1) ? "resizing" : "stable", nnodes > 2 ? 2 : nnodes);
+		 s0 != s1 ? "size-changed" : (d0 | d1) ? "resizing" : "stable");
 	sig_add_bounded(sig);
 }
 
@@ -605,6 +619,8 @@ static int uniq_confirm_stuck(char *buf, size_t len)
 			return 1;
 		}
 	}
+	if (resizer_confirm_stuck(buf, len))
+		return 1;
 	snprintf(buf, len, "hang:lfht-uniq:unconfirmed (no thread inside an operation)");
 	return 0;
 }
@@ -621,7 +637,7 @@ static int run_uniq(void)
 	opt_ops = vp_arg_long("ops", 20000);
 	opt_continuous = (int) vp_arg_long("continuous", 1);
 	opt_unique = 1;
-	vp_lib_thread_slot_base(n_upd + n_walk);
+	vp_lib_thread_slot_base(opt_resize == RZ_EXPLICIT ? n_upd + n_walk + 1 : n_upd + n_walk);
 	vp_barrier_init(&u_bar, n_upd + n_walk);
 	for (int i = 0; i < n_upd + n_walk; i++) {
 		uthr[i].idx = i;
@@ -904,7 +920,8 @@ static void round_check(struct rthr *c)
 		for (int t = 0; t < rd.nthr; t++)
 			rzd |= rd.during[t];
 		r_nontrivial++;
-		snprintf(sig, sizeof(sig), "round:%s:K=%d:overlap=%d:%s:chaos=%d:%s", rz_names[opt_resize], rd.nthr, overlap,
+		snprintf(sig, sizeof(sig), "round:%s:K=%s:overlap=%s:%s:chaos=%d:%s", rz_names[opt_resize],
+			 rd.nthr <= 2 ? "2" : rd.nthr <= 4 ? "3-4" : "5+", overlap <= 1 ? "1" : overlap <= 3 ? "2-3" : "4+",
 			 rd.prefilled ? "present" : "absent", rd.chaos,
 			 ht_size(ht) != rd.size_before ? "size-changed" : (rzd || VP_LOAD(rz.count) != rd.rz_before) ? "resizing" : "stable");
 		sig_add_bounded(sig);
@@ -954,6 +971,8 @@ static int round_confirm_stuck(char *buf, size_t len)
 			snprintf(buf, len, "hang:lfht:add_unique-does-not-return");
 			return 1;
 		}
+	if (resizer_confirm_stuck(buf, len))
+		return 1;
 	snprintf(buf, len, "hang:lfht-rounds:unconfirmed");
 	return 0;
 }
@@ -966,7 +985,7 @@ static int run_rounds(void)
 	opt_rounds = vp_arg_long("rounds", 50000);
 	opt_gen_len = vp_arg_long("gen-len", 2000);
 	opt_unique = 1;
-	vp_lib_thread_slot_base(r_nthr);
+	vp_lib_thread_slot_base(opt_resize == RZ_EXPLICIT ? r_nthr + 1 : r_nthr);
 	vp_barrier_init(&u_bar, r_nthr);
 	for (int i = 0; i < r_nthr; i++) {
 		rthr[i].idx = i;
